@@ -117,6 +117,25 @@ def epochVerify (parent header : Nat) : EpochVerdict :=
   else if !enfIsGenesis parent && !enfIsSuccessorOf header parent then .nonContinuous
   else .ok
 
+inductive HeaderVerdict | ok | invalidNonce | unknownParent | numberMismatch | epochMalformed | epochNonContinuous
+  deriving DecidableEq, Repr
+
+/-- `HeaderVerifier::verify` (verification/src/header_verifier.rs) up to and including the
+`EpochVerifier`: PoW first, then parent lookup, `NumberVerifier` (`parent + 1`, u64: panics at
+`u64::MAX`), `EpochVerifier`.  The `TimestampVerifier` that follows is not part of this property and
+not modelled (the harness keeps timestamps valid).  `digest`: eaglesong of the header's PoW message. -/
+def headerVerify (compact digest : Nat) (parentKnown : Bool) (pNumber hNumber pEpoch hEpoch : Nat) :
+    Option HeaderVerdict :=
+  if !powVerify compact digest then some .invalidNonce
+  else if !parentKnown then some .unknownParent
+  else do
+    let expect ← chk64 (pNumber + 1)
+    if hNumber ≠ expect then some .numberMismatch
+    else match epochVerify pEpoch hEpoch with
+      | .malformed => some .epochMalformed
+      | .nonContinuous => some .epochNonContinuous
+      | .ok => some .ok
+
 /-! ## `EpochExt` rewards -/
 
 structure EpochExt where
@@ -359,5 +378,27 @@ def nextEpochExt (P : Params) (e : EpochExt) (hdrNumber hdrCompact uncles durMs 
   let start ← chk64 (hdrNumber + 1)
   let compact ← difficultyToCompact nd
   some { number, base, rem, prevHR := adj, start, length := L', compact }
+
+/-- `next_epoch_ext`, `TailBlock` arm with `permanent_difficulty()` (dummy PoW dev chains): constant
+length `⌈T / MIN_BLOCK_INTERVAL⌉`, difficulty and hash-rate estimate copied. -/
+def nextEpochExtPermanent (P : Params) (e : EpochExt) (hdrNumber : Nat) : Option EpochExt := do
+  let L' := (P.T + MIN_BLOCK_INTERVAL - 1) / MIN_BLOCK_INTERVAL
+  let R ← primaryRewardOfNext P e
+  let base ← divChk R L'
+  let rem ← modChk R L'
+  let number ← chk64 (e.number + 1)
+  let start ← chk64 (hdrNumber + 1)
+  some { e with number, base, rem, start, length := L' }
+
+/-- `build_genesis_epoch_ext(epoch_reward, compact_target, genesis_epoch_length,
+epoch_duration_target, genesis_orphan_rate)` -/
+def genesisEpochExt (R compact L T on od : Nat) : Option EpochExt := do
+  let base ← divChk R L
+  let rem ← modChk R L
+  let oc ← divChk (← chk64 (L * on)) od
+  let blocks ← chk64 (L + oc)
+  let prod ← chk256 (compactToDifficulty compact * blocks)
+  let hr ← divChk prod T
+  some { number := 0, base, rem, prevHR := hr, start := 0, length := L, compact }
 
 end CkbVerif.Epoch
